@@ -233,6 +233,13 @@ fn types_equal_inner(
             return false;
         }
 
+        // A field is generated as `Box<..>` if its recorded type name says so; two fields that
+        // differ in this are not generated alike, whatever their type IDs.
+        let is_boxed = |f: &Field<PortableForm>| f.type_name.as_ref().is_some_and(|n| n.contains("Box<"));
+        if is_boxed(a) != is_boxed(b) {
+            return false;
+        }
+
         // The type is wrapped in another type such as `Vec<T>` or
         // marked as skipped with `#[scale_info(skip_type_params(T))]`
         let ty_is_skipped_or_wrapped = a_params
